@@ -471,6 +471,9 @@ func coqVars(m map[string]interface{}) string {
 var strPool = []string{"", "x", "hello world", `say "hi"`, `back\slash`, "é", "日本", "RED", "tu:", "$v0", "{a: 1}", "1", "true", "null", "a b  c", "#tag", "line1\nline2"}
 
 func genString(r *vh.Rng) string {
+	if forceString != "" {
+		return forceString
+	}
 	if r.Chance(60) {
 		return r.Pick(strPool)
 	}
